@@ -14,6 +14,7 @@ RULES = {
     "C10.R4": "literal round trip: for each meta key the writer's encoding and the reader's decoding agree (str <-> ast.literal_eval, qtype.name <-> qtypes[...])",
     "C10.R5": "safetensors: plain tensors go to tensors, everything else to metadata; loading merges both",
     "C10.R10": "a reloaded unfrozen model computes with the weights it was given: the quantized weight is derived from the current self.weight on every access (no cache survives the in-place copy of load_state_dict) - the weight-source rule shared with C08.R7 / C09.R2-R3",
+    "C10.R14": "what was saved is what is loaded: nothing reachable from _load_from_state_dict writes the activation-scale buffers (the base class copies the saved values into them; a reset or a normalisation there replaces a calibrated scale)",
     "C10.R13": "a sub-byte weight rebuilt on load reports the geometry that was saved: no QBits constructor / factory call takes size or stride from the (grouped) payload (rule C06.R10 re-checked)",
     "C10.R12": "the activation-scale buffers of every target have the dtype and device of the module, whatever the configuration it was quantized with: load_state_dict copies the saved scales into them (rule C08.R9 re-checked)",
     "C10.R11": "state_dict tensors are the module's own: from_module copies weight and bias into the (contiguous, unshared) parameters the constructor allocated (C08.R4 re-checked), and every value written to the input_scale / output_scale buffers is a freshly computed tensor - never a reference to, or a view of, a tensor another object owns (safetensors refuses shared or non-contiguous tensors)",
@@ -25,6 +26,9 @@ RULES = {
 
 STR_OK = "string"
 TENSOR_OK = "tensor"
+
+
+TENSOR_ATTRS = None  # set by module_save from the class: {"weight", "bias"} + the names passed to register_buffer / register_parameter
 
 
 def value_class(e: ast.AST):
@@ -41,6 +45,9 @@ def value_class(e: ast.AST):
     if isinstance(e, ast.JoinedStr):
         return STR_OK
     if isinstance(e, ast.Attribute) and U(e.value) == "self":
+        # the tensors a module holds are its parameters and registered buffers; any other attribute is configuration (a qtype, a group size, an optimizer)
+        if TENSOR_ATTRS is not None and e.attr not in TENSOR_ATTRS:
+            return "other"
         return TENSOR_OK
     if isinstance(e, ast.Call) and isinstance(e.func, ast.Attribute) and e.func.attr == "detach" and not e.args:
         return value_class(e.func.value) if isinstance(e.func.value, ast.Attribute) else (TENSOR_OK if isinstance(e.func.value, ast.Name) else None)
@@ -204,6 +211,9 @@ def module_save(chk):
     fn = ci.own("_save_to_state_dict")
     dest, prefix, keep = positional_params(fn)[1:4]
     want_always = {"input_scale", "output_scale", "weight_qtype", "activation_qtype"}
+    global TENSOR_ATTRS
+    TENSOR_ATTRS = {"weight", "bias"} | {n.args[0].value for m_ in ci.node.body if isinstance(m_, ast.FunctionDef) for n in ast.walk(m_)
+                                         if isinstance(n, ast.Call) and U(n.func) in ("self.register_buffer", "self.register_parameter") and n.args and isinstance(n.args[0], ast.Constant)}
     for p in paths_of(fn):
         if p.end[0] == "raise":
             continue
@@ -724,10 +734,47 @@ def freshness(repo, mod, e, bind, depth=0):
     return "unknown " + type(e).__name__
 
 
+def load_keeps_scales(chk):
+    """C10.R14: the methods reachable from QModuleMixin._load_from_state_dict (through calls on self) neither rebind nor write in place input_scale / output_scale."""
+    from .c13 import INPLACE_METHODS
+    repo = chk.repo
+    ci = repo.cls("QModuleMixin")
+    load = ci.own("_load_from_state_dict")
+    names = ("input_scale", "output_scale")
+    seen, todo, reach = set(), [load], []
+    while todo:
+        fn = todo.pop()
+        if id(fn) in seen:
+            continue
+        seen.add(id(fn))
+        reach.append(fn)
+        for n in ast.walk(fn):
+            if isinstance(n, ast.Call) and isinstance(n.func, ast.Attribute) and isinstance(n.func.value, ast.Name) and n.func.value.id == "self":
+                m = repo.method(ci, n.func.attr)
+                if m is not None:
+                    todo.append(m[1])
+    for fn in reach:
+        for n in ast.walk(fn):
+            w = None
+            if isinstance(n, ast.Attribute) and n.attr in names and isinstance(n.ctx, (ast.Store, ast.Del)):
+                w = U(n)
+            elif isinstance(n, ast.Call) and isinstance(n.func, ast.Attribute) and n.func.attr in INPLACE_METHODS and isinstance(n.func.value, ast.Attribute) and n.func.value.attr in names:
+                w = U(n)[:50]
+            elif isinstance(n, ast.Call) and U(n.func) in ("setattr", "self.register_buffer") and n.args and any(isinstance(a, ast.Constant) and a.value in names for a in n.args[:2]):
+                w = U(n)[:50]
+            if w is not None:
+                chk.bad("C10.R14", f"{ci.mod.rel}:{n.lineno}", f"QModuleMixin.{fn.name}", "scale buffer written while loading", f"NOT: `{w}` in {fn.name}, reached from _load_from_state_dict, writes an activation-scale buffer the state_dict restores",
+                        "a model calibrated with the default (streamlining) Calibration - modules whose activations were switched off keep their calibrated scales in the state_dict: after loading they are back to one, and the state_dict saved again differs")
+    chk.ok("C10.R14", f"{ci.mod.rel}:{load.lineno}", f"{len(reach)} method(s) reachable from _load_from_state_dict scanned for writes of {names}")
+    chk.floor("C10.R14", len(reach), 2, "methods reachable from _load_from_state_dict")
+
+
 def owned_tensors(chk):
     from ..report import AliasedCheck
     from . import c08
     repo = chk.repo
+    if chk.pid == "C10":
+        load_keeps_scales(chk)
     if chk.pid == "C10":
         c08.copy_rule(AliasedCheck(chk, {"C08.R4": "C10.R11"}))
         # the buffers a state_dict is loaded into have the dtype of the model whatever the configuration the target was quantized with:
